@@ -392,6 +392,10 @@ func newObjectWriter(fs billy.Filesystem, objectFormat formatcfg.ObjectFormat) (
 // Close finalizes the object and moves it to its permanent location.
 func (w *ObjectWriter) Close() error {
 	if err := w.Writer.Close(); err != nil {
+		// Nothing valid was written (e.g. objfile.ErrShortWrite): do not
+		// leave the temporary file behind.
+		_ = w.f.Close()
+		_ = w.fs.Remove(w.f.Name())
 		return err
 	}
 
